@@ -232,7 +232,7 @@ func (t *Tree) Len() int { return t.Count }
 // Contains returns whether a Comparable is in the bounds of the tree. If no bounding has
 // been constructed Contains returns true.
 func (t *Tree) Contains(c Comparable) bool {
-	if t.Root.Bounding == nil {
+	if t.Root == nil || t.Root.Bounding == nil {
 		return true
 	}
 	return t.Root.Contains(c)
@@ -365,10 +365,9 @@ type Keeper interface {
 // If a sentinel ComparableDist with a nil Comparable is used by the Keeper to mark the
 // maximum distance, NearestSet will remove it before returning.
 func (t *Tree) NearestSet(k Keeper, q Comparable) {
-	if t.Root == nil {
-		return
+	if t.Root != nil {
+		t.Root.searchSet(q, k)
 	}
-	t.Root.searchSet(q, k)
 
 	// Check whether we have retained a sentinel
 	// and flag removal if we have.
